@@ -103,8 +103,10 @@ def run(ctx):
         mjobs.append((text.strip(), comment, kvs, body.strip()))
     mres = pmap(ctx, meta_impl, mjobs, chunksize=64)
     bad = coq_bad(ctx, "c15m", "Csv.CsvModel Data.DataModel Meta.MetaModel Harness.C15Cmp", "c15meta",
-                  [meta_lit(j, o) for j, o in zip(mjobs, mres)], ["c15_meta_agree", "c15_meta_spec"], chunk=300)
+                  [meta_lit(j, o) for j, o in zip(mjobs, mres)], ["c15_meta_agree", "c15_meta_spec", "c15_meta_agree_d23"], chunk=300)
     m_spec, m_agree = sorted(bad["c15_meta_spec"]), sorted(bad["c15_meta_agree"])
+    # a disagreement that the unrepaired parser explains is the repaired defect D23 again: a concrete failing comment
+    d23 = [i for i in m_agree if i not in bad["c15_meta_agree_d23"] and mres[i]["raised"]]
 
     def mcase(i):
         return {"level": "comment-parser", "csvpath": mjobs[i][0], "fields_written": mjobs[i][2], "impl": mres[i]}
@@ -124,7 +126,7 @@ def run(ctx):
         for vn, cm in VARIANTS:
             if cm is None:
                 c, _ = gen_comment(rng)
-                while any(k in c for k in MODEVALS) or ":" in c.split(" ")[-1] or re.search(r"\b(id|name)\s*:", c, re.I):
+                while any(k in c for k in MODEVALS) or re.search(r"\b(id|name)\s*:", c, re.I):
                     c, _ = gen_comment(rng)
                 cm = "~" + c + " :~ " if c.strip() else ""
             fn = f"{vn}_{fname}"
@@ -189,6 +191,9 @@ def run(ctx):
 
     if fails:
         ctx.violation("relations", {"what": fails[0]["kind"], "case": fails[0], "more": fails[1:5]})
+    if d23:
+        ctx.violation("comment-raises", {"what": "a comment whose key has no value before the next colon makes the parse raise (defect D23, listed fixed, is back; witness key_without_value_refuted)",
+                                         "case": mcase(d23[0]), "cases": len(d23)})
     if m_spec:
         ctx.violation("fields", {"what": "the comment changes the csvpath, or a field written 'key: value' is not available in the metadata", "case": mcase(m_spec[0]),
                                  "more": [mcase(i) for i in m_spec[1:4]]})
